@@ -11,7 +11,7 @@ import schemacomp_common as sc
 PROBES = [sc.PROBE]
 
 MANIFEST = dict(
-    text='SchemaComp.tla builds FIX schemas by construction actions (DeclField(type, enumerated values?), DeclPair/PutPair (LENGTH + DATA), AddMessage(admin?), AddComponent, PutField, UseComponent, AddGroup, NestGroup, ReuseCountField(same | other flags | other order | other members | other nested group), Finish) on a fixed skeleton (standard header/trailer, seven session messages); the state is the meaning of the schema. TLC enumerates two small universes exhaustively (groups nested to depth 3 and reused across two messages; components holding groups and used inside groups) and simulates the full universe (10 fields over every supported type with and without enumerated values, 3 messages incl. one admin, 2 components, 4 count fields, one LENGTH/DATA pair), checks on every completed schema ValidSchema, OwnTraits and DistinctDefsDistinctTraits for the ideal group-table design and exports the schemas. Each chosen schema is rendered as FIX XML, compiled by the freshly built f8c, the generated C++ is compiled and linked with probe_meta; TLC validates (i) a dump of the generated metadata (field numbers, names, enumerated values; msgtypes, names, admin flags; per container - header, trailer, message, every repeating group at every level - members, types, mandatory and group flags, order by position) against the abstract schema state (T_SchemaComp) and (ii) messages of each schema (mandatory-only, all-optional, random subsets, deepest nesting): encode/decode/re-encode round trips and the wire well-formedness of every encoding (the C01 and C02 monitors of T_Codec with facts read from the XML).',
+    text='SchemaComp.tla builds FIX schemas by construction actions (DeclField(type, enumerated values?), DeclPair/PutPair (LENGTH + DATA), AddMessage(admin?), AddComponent, PutField, UseComponent, AddGroup, NestGroup, ReuseCountField(same | other flags | other order | other members | other nested group | nested group reflagged or reordered), Finish) on a fixed skeleton (standard header/trailer, seven session messages); the state is the meaning of the schema. TLC enumerates two small universes exhaustively (groups nested to depth 3 and reused across two messages; components holding groups and used inside groups; components inside components) and simulates the full universe (10 fields over every supported type with and without enumerated values, 3 messages incl. one admin, 2 components, 4 count fields, one LENGTH/DATA pair), checks on every completed schema ValidSchema, OwnTraits and DistinctDefsDistinctTraits for the ideal group-table design and exports the schemas. Each chosen schema is rendered as FIX XML, compiled by the freshly built f8c, the generated C++ is compiled and linked with probe_meta; TLC validates (i) a dump of the generated metadata (field numbers, names, enumerated values; msgtypes, names, admin flags; per container - header, trailer, message, every repeating group at every level - members, types, mandatory and group flags, order by position) against the abstract schema state (T_SchemaComp) and (ii) messages of each schema (mandatory-only, all-optional, random subsets, deepest nesting): encode/decode/re-encode round trips and the wire well-formedness of every encoding (the C01 and C02 monitors of T_Codec with facts read from the XML).',
     note='Verdicts come from the two TLA+ monitors only. Generated code is compiled uninstrumented at -O0 (runtime and probe are ASan/UBSan). Readings adopted: unused declared fields may be absent; mandatory flags of 8/9/35/10 and of members of a group inside an optional component are not judged; position values are judged by the order they induce; TZTIMEONLY/TZTIMESTAMP (no parser/printer in the runtime) are outside the generated family; LENGTH/DATA pairs are placed at message level only (pairs inside groups are a C06 finding). Quick tier reuses cached TLC results of an unchanged design spec. Trusts TLC, the XML renderer (40 lines), lib/schema.py, probe_meta/probe_codec (move data only), g++.',
     tech='TLA+ schema-construction spec + TLC exhaustive check / simulation and schema export; real f8c + C++ compiler per schema; TLC trace validation of the metadata dump and of codec round trips',
     ref='5.4, 6 C13')
@@ -24,6 +24,7 @@ def models(ctx):
     q = ctx.quick
     g = sc.model(ctx, "MC_SchemaComp.tla", "MC_SchemaComp_groups_quick.cfg" if q else "MC_SchemaComp_groups.cfg", GROUP_PROPS)
     c = sc.model(ctx, "MC_SchemaComp.tla", "MC_SchemaComp_comps_quick.cfg" if q else "MC_SchemaComp_comps.cfg", GROUP_PROPS)
+    n = sc.model(ctx, "MC_SchemaComp.tla", "MC_SchemaComp_nestcomp.cfg", GROUP_PROPS)
     ctx.exhaustive = True
     # vacuity guards: the family contains two-definition count fields, depth-3 nesting, groups inside components,
     # and the design's OwnTraits is violated when flags and order are left out of a definition's identity
@@ -33,7 +34,7 @@ def models(ctx):
     sc.model(ctx, "MC_SchemaComp.tla", "MC_SchemaComp_dev_flags.cfg", [], expect="OwnTraits")
     if not g["skel"]:
         raise core.Infra("the design model did not export the skeleton")
-    return g, c
+    return g, c, n
 
 
 def replay(ctx):
@@ -50,23 +51,42 @@ def run(ctx):
         return replay(ctx)
     rng = random.Random(ctx.seed)
     q = ctx.quick
-    g, c = models(ctx)
+    g, c, n = models(ctx)
     nsim = 10 if q else 200
     sim = sc.model(ctx, "MC_SchemaComp.tla", "MC_SchemaComp_sim.cfg", GROUP_PROPS, sim=(nsim + 4, 60, ctx.seed))
     ctx.tick("model")
     if len(sim["leaves"]) < nsim // 2:
         raise core.Infra("simulation completed only %d schemas" % len(sim["leaves"]))
-    n_g, n_c = (6, 4) if q else (70, 40)
-    fam = [("groups", l) for l in sc.choose(rng, g["leaves"], n_g, max_with=(KNOWN_CLASS, 2 if q else 12))]
+    n_g, n_c = (10, 4) if q else (90, 40)
+    fam = [("groups", l) for l in sc.choose(rng, g["leaves"], n_g)]
     fam += [("components", l) for l in sc.choose(rng, c["leaves"], n_c)]
+    # components inside components (referenced from messages and from groups, required and optional at either level)
+    nested = [l for l in n["leaves"] if any(h.startswith("NestComponent") for h in l["hist"])]
+    if len(nested) < 100:
+        raise core.Infra("only %d schemas with a component inside a component were exported" % len(nested))
+    # one schema (thorough: five) per way of nesting that brings a mandatory member: inner reference required/optional x
+    # outer reference required/optional x referenced from a message / from inside a group
+    classes = {}
+    for l in sorted(nested, key=lambda l: json.dumps(l, sort_keys=True)):
+        k = tuple(sorted(f for f in sc.features(l) if "_with_mandatory_member_inside_" in f))
+        if k:
+            classes.setdefault(k, []).append(l)
+    if len(classes) < 8:
+        raise core.Infra("only %d nesting classes with mandatory members among the exported schemas" % len(classes))
+    picked = []
+    for k in sorted(classes):
+        rng.shuffle(classes[k])
+        picked += classes[k][:1 if q else 5]
+    if not q:
+        have = {json.dumps(l, sort_keys=True) for l in picked}
+        picked += [l for l in sc.choose(rng, nested, 30) if json.dumps(l, sort_keys=True) not in have]
+    n_n = len(picked)
+    ctx.extra["nesting_classes"] = ["+".join(k) for k in sorted(classes)]
+    fam += [("nested_components", l) for l in picked]
     simpick = sorted(sim["leaves"], key=lambda l: json.dumps(l, sort_keys=True))
     rng.shuffle(simpick)
     kept, known = [], 0
     for l in simpick:
-        k = bool(sc.features(l) & KNOWN_CLASS)
-        if k and known >= (2 if q else 25):
-            continue
-        known += k
         kept.append(l)
     fam += [("simulated", l) for l in kept[:nsim]]
     opts = dict(per_type_random=2 if q else 6, n_deep=3 if q else 10, max_count=3, keep_objects=q, parallel=8)
@@ -74,10 +94,10 @@ def run(ctx):
     if not q or os.environ.get("VERIF_SELFTEST"):
         sc.selftest(ctx, mexecs)
     ctx.rule = ("TLC enumerates the two small universes exhaustively (%d + %d completed schemas) and simulates the full one (%d); "
-                "%d schemas (%d + %d chosen by a seeded greedy cover of construction actions and structural features, %d simulated) "
+                "%d schemas (%d + %d + %d with nested components chosen by a seeded greedy cover of construction actions and structural features, %d simulated) "
                 "went through the real f8c, g++ and probe_meta; every metadata dump and %d message round trips were judged by "
                 "TLC; distinct = distinct (schema shape) and (schema shape, message shape, build order, outcome) tuples" %
-                (len(g["leaves"]), len(c["leaves"]), len(sim["leaves"]), len(summ), n_g, n_c, len(summ) - n_g - n_c,
+                (len(g["leaves"]), len(c["leaves"]), len(sim["leaves"]), len(summ), n_g, n_c, n_n, len(summ) - n_g - n_c - n_n,
                  ctx.extra.get("messages_round_tripped", 0)))
     for s, ex in list(zip(summ, mexecs))[:2]:
         ctx.sample({"schema": s, "hist": [l for k, l in fam if sc.schema_id(sc.full_schema(g["skel"], l)) == s["id"]][0]["hist"],
@@ -85,6 +105,6 @@ def run(ctx):
     ctx.trusted = ["TLC", "XML renderer in lib/schemacomp_common.py", "lib/schema.py (XML reader)", "probe_meta / probe_codec (move data only)",
                    "g++", "tokenizer and SHA-256 digest in lib/codec_common.py", "ASan/UBSan (runtime and probe; generated code uninstrumented)"]
     ctx.assumptions = ["a tag occurs once per message (header, body with all its groups, trailer); a group element starts with a plain field",
-                       "components do not reference components; a LENGTH field is followed by its DATA field (number + 1) at message level",
+                       "a component references only components declared before it; a LENGTH field is followed by its DATA field (number + 1) at message level",
                        "field values as in C01 (negative integers, dates after 2038 and integers near INT_MAX are left to C01's canaries)",
                        "TZTIMEONLY/TZTIMESTAMP are not among the supported types (the runtime neither parses nor prints them)"]
